@@ -275,7 +275,10 @@ class StringLiteral(BaseType):
         return [], 'str'
 
     def _to_hash_string(self) -> str:
-        return f"{type(self).__name__}/{self._repr_literals()}"
+        if self._overflow:
+            return f"{type(self).__name__}/..."
+        # Unambiguous (literals may contain commas) and independent of set iteration order
+        return f"{type(self).__name__}/{json.dumps(sorted(self._literals))}"
 
     @property
     def literals(self):
@@ -288,4 +291,4 @@ class StringLiteral(BaseType):
     def _repr_literals(self):
         if self._overflow:
             return '...'
-        return ','.join(self._literals)
+        return ','.join(sorted(self._literals))
